@@ -9,6 +9,7 @@ package main
 //	marcyc <cfgbits> <kind>       cyclic value (kind: ptr | sl | map)
 //	markind <cfgbits> <kind>      value of a kind without JSON representation (chan, func, complex, ...)
 //	marfail <cfgbits> <name>      Marshaler / TextMarshaler whose method returns an error
+//	marps <cfgbits> <name>        hand-built value with an EMBEDDED pointer-shaped (Text)Marshaler (buildPS)
 //
 // and three more library types for the typed ops: (lib LJ) / (lib LJP) / (lib LT) = value-receiver
 // json.Marshaler, pointer-receiver json.Marshaler, value-receiver TextMarshaler returning programmable
@@ -244,6 +245,268 @@ type EmbMPOuter struct {
 	X int `json:"x"`
 }
 
+// ---------------------------------------------------------------- pointer-shaped ("direct interface") library types
+
+// Library types whose value is ONE pointer word (a struct with a single pointer field, a [1]*T array, a map): when
+// such a value is boxed into an interface the data word is the pointer itself, not the address of the slot
+// (reflect: !Indirect()).  Each comes with a value-receiver and a pointer-receiver MarshalText and MarshalJSON.
+// What they print is what their twins MV / MP / TV / TP of types.go print (`{"mv":n}`, `{"mp":n}`, "tvn", "tpn"; the
+// pointer-receiver struct and map variants printed plainly are `{"V":n}` like MP / TP), so the Lean driver models
+// them by their twins (Driver/Enc.lean twinName); the pointer-receiver arrays (plain form `[n]`) have no twin and are
+// judged against encoding/json only.  They travel as the twin's JSON text and are built by their Unmarshal methods.
+//
+//	PSTV PSTP PSJV PSJP   struct{ V *int64 }     PATV PATP PAJV PAJP   [1]*int64     PMTV PMTP PMJV PMJP   map[string]int64
+
+func psN(p *int64) int64 {
+	if p == nil {
+		return 0
+	}
+	return *p
+}
+
+func psParseText(b []byte, pre string) (int64, error) {
+	s := string(b)
+	if !strings.HasPrefix(s, pre) {
+		return 0, fmt.Errorf("bad %s text", pre)
+	}
+	return strconv.ParseInt(s[len(pre):], 10, 64)
+}
+
+// psParseObj reads {"mv":n} / {"mp":n} / {"V":n} (whichever is present; {} is 0)
+func psParseObj(b []byte) (int64, error) {
+	var x struct {
+		Mv *int64 `json:"mv"`
+		Mp *int64 `json:"mp"`
+		V  *int64 `json:"V"`
+	}
+	if err := json.Unmarshal(b, &x); err != nil {
+		return 0, err
+	}
+	for _, p := range []*int64{x.Mv, x.Mp, x.V} {
+		if p != nil {
+			return *p, nil
+		}
+	}
+	return 0, nil
+}
+
+type PSTV struct{ V *int64 }
+
+func (p PSTV) MarshalText() ([]byte, error) {
+	return []byte("tv" + strconv.FormatInt(psN(p.V), 10)), nil
+}
+func (p *PSTV) UnmarshalText(b []byte) error {
+	n, err := psParseText(b, "tv")
+	p.V = &n
+	return err
+}
+
+type PSTP struct{ V *int64 }
+
+func (p *PSTP) MarshalText() ([]byte, error) {
+	return []byte("tp" + strconv.FormatInt(psN(p.V), 10)), nil
+}
+func (p *PSTP) UnmarshalJSON(b []byte) error {
+	n, err := psParseObj(b)
+	p.V = &n
+	return err
+}
+
+type PSJV struct{ V *int64 }
+
+func (p PSJV) MarshalJSON() ([]byte, error) { return []byte(fmt.Sprintf(`{"mv":%d}`, psN(p.V))), nil }
+func (p *PSJV) UnmarshalJSON(b []byte) error {
+	n, err := psParseObj(b)
+	p.V = &n
+	return err
+}
+
+type PSJP struct{ V *int64 }
+
+func (p *PSJP) MarshalJSON() ([]byte, error) { return []byte(fmt.Sprintf(`{"mp":%d}`, psN(p.V))), nil }
+func (p *PSJP) UnmarshalJSON(b []byte) error {
+	n, err := psParseObj(b)
+	p.V = &n
+	return err
+}
+
+type PATV [1]*int64
+
+func (p PATV) String() string { return fmt.Sprintf("PATV(%d)", psN(p[0])) }
+func (p PATV) MarshalText() ([]byte, error) {
+	return []byte("tv" + strconv.FormatInt(psN(p[0]), 10)), nil
+}
+func (p *PATV) UnmarshalText(b []byte) error {
+	n, err := psParseText(b, "tv")
+	p[0] = &n
+	return err
+}
+
+type PATP [1]*int64
+
+func (p PATP) String() string { return fmt.Sprintf("PATP(%d)", psN(p[0])) }
+func (p *PATP) MarshalText() ([]byte, error) {
+	return []byte("tp" + strconv.FormatInt(psN(p[0]), 10)), nil
+}
+func (p *PATP) UnmarshalJSON(b []byte) error {
+	n, err := psParseObj(b)
+	p[0] = &n
+	return err
+}
+
+type PAJV [1]*int64
+
+func (p PAJV) String() string               { return fmt.Sprintf("PAJV(%d)", psN(p[0])) }
+func (p PAJV) MarshalJSON() ([]byte, error) { return []byte(fmt.Sprintf(`{"mv":%d}`, psN(p[0]))), nil }
+func (p *PAJV) UnmarshalJSON(b []byte) error {
+	n, err := psParseObj(b)
+	p[0] = &n
+	return err
+}
+
+type PAJP [1]*int64
+
+func (p PAJP) String() string                { return fmt.Sprintf("PAJP(%d)", psN(p[0])) }
+func (p *PAJP) MarshalJSON() ([]byte, error) { return []byte(fmt.Sprintf(`{"mp":%d}`, psN(p[0]))), nil }
+func (p *PAJP) UnmarshalJSON(b []byte) error {
+	n, err := psParseObj(b)
+	p[0] = &n
+	return err
+}
+
+type PMTV map[string]int64
+
+func (p PMTV) MarshalText() ([]byte, error) { return []byte("tv" + strconv.FormatInt(p["V"], 10)), nil }
+func (p *PMTV) UnmarshalText(b []byte) error {
+	n, err := psParseText(b, "tv")
+	*p = PMTV{"V": n}
+	return err
+}
+
+type PMTP map[string]int64
+
+func (p *PMTP) MarshalText() ([]byte, error) {
+	return []byte("tp" + strconv.FormatInt((*p)["V"], 10)), nil
+}
+func (p *PMTP) UnmarshalJSON(b []byte) error {
+	n, err := psParseObj(b)
+	*p = PMTP{"V": n}
+	return err
+}
+
+type PMJV map[string]int64
+
+func (p PMJV) MarshalJSON() ([]byte, error) { return []byte(fmt.Sprintf(`{"mv":%d}`, p["V"])), nil }
+func (p *PMJV) UnmarshalJSON(b []byte) error {
+	n, err := psParseObj(b)
+	*p = PMJV{"V": n}
+	return err
+}
+
+type PMJP map[string]int64
+
+func (p *PMJP) MarshalJSON() ([]byte, error) { return []byte(fmt.Sprintf(`{"mp":%d}`, (*p)["V"])), nil }
+func (p *PMJP) UnmarshalJSON(b []byte) error {
+	n, err := psParseObj(b)
+	*p = PMJP{"V": n}
+	return err
+}
+
+// embedding: the methods of an embedded pointer-shaped type are promoted; `struct{ PSTV }` is pointer-shaped itself
+type EmbPSTV struct{ PSTV }
+type EmbPSTVWide struct {
+	PSTV
+	X int `json:"x"`
+}
+type EmbPtrPSTV struct{ *PSTV }
+type EmbPATV struct{ PATV }
+type EmbPMTV struct{ PMTV }
+type EmbPSJV struct{ PSJV }
+type EmbPAJV struct{ PAJV }
+type EmbPSTP struct{ PSTP }
+type EmbPSJP struct{ PSJP }
+type EmbPATP struct{ PATP }
+type EmbPSTVIn struct {
+	A int `json:"a"`
+	E EmbPSTV
+}
+
+func psI(n int64) *int64 { return &n }
+
+// buildPS: hand-built values with embedded pointer-shaped marshalers, `<fixture>` or `<fixture>.<position>`
+// (position: val | ptr | any | sl | arr | mapv | field)
+func buildPS(name string) interface{} {
+	fix, pos := name, "val"
+	if i := strings.LastIndex(name, "."); i >= 0 {
+		for _, q := range psPositions {
+			if name[i+1:] == q {
+				fix, pos = name[:i], q
+			}
+		}
+	}
+	var v reflect.Value
+	switch fix {
+	case "emb.pstv":
+		v = reflect.ValueOf(EmbPSTV{PSTV{psI(42)}})
+	case "emb.pstv.wide":
+		v = reflect.ValueOf(EmbPSTVWide{PSTV{psI(42)}, 7})
+	case "emb.ptr.pstv":
+		v = reflect.ValueOf(EmbPtrPSTV{&PSTV{psI(42)}})
+	case "emb.patv":
+		v = reflect.ValueOf(EmbPATV{PATV{psI(42)}})
+	case "emb.pmtv":
+		v = reflect.ValueOf(EmbPMTV{PMTV{"V": 42}})
+	case "emb.psjv":
+		v = reflect.ValueOf(EmbPSJV{PSJV{psI(42)}})
+	case "emb.pajv":
+		v = reflect.ValueOf(EmbPAJV{PAJV{psI(42)}})
+	case "emb.pstp":
+		v = reflect.ValueOf(EmbPSTP{PSTP{psI(42)}})
+	case "emb.psjp":
+		v = reflect.ValueOf(EmbPSJP{PSJP{psI(42)}})
+	case "emb.patp":
+		v = reflect.ValueOf(EmbPATP{PATP{psI(42)}})
+	case "emb.pstv.in":
+		v = reflect.ValueOf(EmbPSTVIn{1, EmbPSTV{PSTV{psI(42)}}})
+	default:
+		panic("marps: " + name)
+	}
+	t := v.Type()
+	switch pos {
+	case "val":
+		return v.Interface()
+	case "ptr":
+		p := reflect.New(t)
+		p.Elem().Set(v)
+		return p.Interface()
+	case "any":
+		return []interface{}{v.Interface()}
+	case "sl":
+		s := reflect.MakeSlice(reflect.SliceOf(t), 2, 2)
+		s.Index(0).Set(v)
+		s.Index(1).Set(v)
+		return s.Interface()
+	case "arr":
+		a := reflect.New(reflect.ArrayOf(1, t)).Elem()
+		a.Index(0).Set(v)
+		return a.Interface()
+	case "mapv":
+		m := reflect.MakeMap(reflect.MapOf(reflect.TypeOf(""), t))
+		m.SetMapIndex(reflect.ValueOf("k"), v)
+		return m.Interface()
+	case "field":
+		st := reflect.StructOf([]reflect.StructField{{Name: "A", Type: reflect.TypeOf(0)}, {Name: "F", Type: t}})
+		x := reflect.New(st).Elem()
+		x.Field(0).SetInt(1)
+		x.Field(1).Set(v)
+		return x.Interface()
+	}
+	panic("marps: position " + pos)
+}
+
+var psFixtures = []string{"emb.pstv", "emb.pstv.wide", "emb.ptr.pstv", "emb.patv", "emb.pmtv", "emb.psjv", "emb.pajv", "emb.pstp", "emb.psjp", "emb.patp", "emb.pstv.in"}
+var psPositions = []string{"val", "ptr", "any", "sl", "arr", "mapv", "field"}
+
 type deepRec struct {
 	Next *deepRec `json:"n,omitempty"`
 }
@@ -342,6 +605,10 @@ func init() {
 	libTypes["LJ"] = reflect.TypeOf(LJ{})
 	libTypes["LJP"] = reflect.TypeOf(LJP{})
 	libTypes["LT"] = reflect.TypeOf(LT{})
+	for n, v := range map[string]interface{}{"PSTV": PSTV{}, "PSTP": PSTP{}, "PSJV": PSJV{}, "PSJP": PSJP{}, "PATV": PATV{}, "PATP": PATP{},
+		"PAJV": PAJV{}, "PAJP": PAJP{}, "PMTV": PMTV{}, "PMTP": PMTP{}, "PMJV": PMJV{}, "PMJP": PMJP{}} {
+		libTypes[n] = reflect.TypeOf(v)
+	}
 	registerOp("rt", func(a []string) string {
 		bits, _ := strconv.ParseUint(a[0], 10, 64)
 		tn, t := parseType(a[1])
@@ -431,6 +698,10 @@ func init() {
 	registerOp("markind", func(a []string) string {
 		bits, _ := strconv.ParseUint(a[0], 10, 64)
 		return simple(buildKind(a[1]), bits)
+	})
+	registerOp("marps", func(a []string) string {
+		bits, _ := strconv.ParseUint(a[0], 10, 64)
+		return simple(buildPS(a[1]), bits)
 	})
 	registerOp("marfail", func(a []string) string {
 		bits, _ := strconv.ParseUint(a[0], 10, 64)
